@@ -62,10 +62,14 @@ func runC14(c *Check) {
 				x, y, op = y, x, swapOp(op)
 			}
 			k, isC := constAsInt(y)
-			if !isC || k != 3 || (op != token.GTR && op != token.GEQ) {
+			if !isC || (op != token.GTR && op != token.GEQ) {
 				return false
 			}
-			return derivesFromCall(x, "(time.Duration).Seconds") != nil || derivesFromCall(x, "(time.Time).Sub") != nil
+			// `d.Seconds() > 3` or, on the duration itself, `d > 3*time.Second`
+			if derivesFromCall(x, "(time.Duration).Seconds") != nil {
+				return k == 3
+			}
+			return derivesFromCall(x, "(time.Time).Sub") != nil && k == 3000000000
 		}
 		have := lowerBoundEdge(func(v ssa.Value) bool { x := lenOf(v); return x != nil && loadOfField(x, fOut) != nil }, 1)
 		nT, nH := 0, 0
@@ -338,6 +342,7 @@ func runC14(c *Check) {
 	c.ruleCleanupAlwaysForwards("R12")
 	c.ruleTxBodyAlwaysForwarded("R13")
 	c.ruleWiring("R14", c.constructorsIn("spynode", "handlers"))
+	c.ruleRequestAgeFromRequestTime("R15")
 
 	// ---- R6 every filled getdata is transmitted
 	if fn := c.Fn("R6", "state.(*TxTracker).Check"); fn != nil {
